@@ -34,6 +34,10 @@ func init() {
 	natives["(time.Time).Year"] = func(w *Worker, st *State, args []Value, fv *FuncV, depth int) []Outcome {
 		return ret1(st, tobj(args[0]).y)
 	}
+	natives["(time.Month).String"] = func(w *Worker, st *State, args []Value, fv *FuncV, depth int) []Outcome {
+		// concrete months only (package initialisers that build month tables)
+		return ret1(st, StrV{s: time.Month(concInt(args[0], "time.Month.String")).String()})
+	}
 	natives["(time.Time).Month"] = func(w *Worker, st *State, args []Value, fv *FuncV, depth int) []Outcome {
 		return ret1(st, tobj(args[0]).m)
 	}
